@@ -3,7 +3,8 @@ from .props import Prop, reg
 from . import genui as gu
 
 reg(Prop("C22",
-         [("ui", gu.g_ui, 6), ("uideep", gu.g_ui_deep, 3), ("uiwitness", gu.g_ui_witness, 1), ("uilong", gu.g_ui_long, 1)],
+         [("ui", gu.g_ui, 6), ("uideep", gu.g_ui_deep, 3), ("uiwitness", gu.g_ui_witness, 1), ("uilong", gu.g_ui_long, 1),
+          ("uitop", gu.g_ui_top, 1)],
          lambda c: "modes2+" in c.tags or "err+ok" in c.tags,
          "scripts of 1-40 input lines on six tiny RV64IMA programs (straight line, loop, 8-byte and 4-byte loads/stores "
          "with provider prompts, two memory blocks of different sizes, call/ecall) through the real UI.processCommand of a "
@@ -26,8 +27,9 @@ reg(Prop("C22",
                   "makes are parameters of the model, replayed from the implementation's dumps",
                   "fmt, the terminal size (view.Print/screen.go is not run; Mode.View().Print(n) is)",
                   "status of a call is read off its output: last line holding 'error: ' / 'leaving mode'"],
-         assumptions=["Emulator.Step never panics (C03; F03 memValue is open: the generator avoids loads overlapping stored "
-                      "data partially)",
+         assumptions=["Emulator.Step never panics (C03, unconditional since the repair of F45: the stream uitop answers "
+                      "register prompts with values at the top of the address space; the generator still avoids loads "
+                      "overlapping stored data partially)",
                       "at the end of the input a value prompt never returns (readValueNoErr loops): scripts end with valid "
                       "values; the model reports `hang`, the harness HANG"],
          thorough_lines=gu.bin_lines,
